@@ -38,6 +38,11 @@ def extern(name):
     return deco
 
 
+@extern("ext:typing.cast")
+def _typing_cast(engine, args, kwargs, node, self_expr):
+    return args[1]
+
+
 class Interp(StmtMixin, ExprMixin, CallMixin, BuiltinMixin, EngineBase):
     merge_enabled = not bool(__import__('os').environ.get('PYVC_NOMERGE'))
     want_seq_comprehension = False
@@ -87,6 +92,11 @@ class Interp(StmtMixin, ExprMixin, CallMixin, BuiltinMixin, EngineBase):
         res = FunctionResult(qualname)
         self.res = res
         t0 = time.time()
+        from .contracts import HARNESSES
+
+        for hm, hn, hs in HARNESSES:
+            if f"{hm}:<harness>{hn}" not in self.repo.harnesses:
+                self.repo.add_harness(hm, hn, hs)
         fdef = self.repo.lookup(qualname)
         con = self.reg.get(qualname)
         if not isinstance(fdef, FuncDef):
@@ -96,6 +106,8 @@ class Interp(StmtMixin, ExprMixin, CallMixin, BuiltinMixin, EngineBase):
             res.undecided.append(f"no contract for {qualname}")
             return res
         res.source = fdef.source_info()
+        self.t_verify = time.time()
+        self.gen_budget_s = float(__import__("os").environ.get("PYVC_GEN_BUDGET", "150"))
         self.cur_fn = fdef
         self.cur_contract = con
         self.obls = {}
@@ -133,6 +145,8 @@ class Interp(StmtMixin, ExprMixin, CallMixin, BuiltinMixin, EngineBase):
             res.paths += 1
             if res.paths > self.max_paths:
                 raise Unsupported(f"more than {self.max_paths} paths")
+            if time.time() - self.t_verify > self.gen_budget_s:
+                raise Unsupported(f"generation budget of {self.gen_budget_s}s exceeded after {res.paths} paths")
             try:
                 self._run_path(fdef, con)
             except PathEnd:
